@@ -1,6 +1,7 @@
 (* C04 - Btree columns are an ordered map with correct bidirectional iteration. *)
 From Coq Require Import NArith List Bool.
 From PDB Require Import Model.BTreeIter Model.BTreeCheck Proofs.BTreeIterProofs Proofs.BTreeCheckProofs Proofs.BTreeMergeProofs.
+From PDB Require Model.BTreeMut Proofs.BTreeMutProofs.
 Import ListNotations.
 Open Scope N_scope.
 
@@ -94,6 +95,38 @@ Example C04_checker_nonvacuous :
   wf_b 1 0 100 (BNode (Some (BNode None [(1, None)])) [(5, None)]) = false.
 Proof. vm_compute. repeat split; reflexivity. Qed.
 
+(* MUTATION. How a Set changes the on-disk tree (src/btree/node.rs, btree.rs: descent by the recorded depth,
+   insertion into the node, split of a full node at the median, a new root when the root splits), for EVERY
+   well-shaped sorted tree and every key: the result is well shaped again (every leaf at the recorded depth, one
+   more child than keys in every inner node, at most ORDER keys per node), sorted, and holds exactly the old
+   keys and the new one. bstep is the function the mutation correspondence (kind 104) runs against the raw tree
+   after every operation - for removals too (borrowing from the left / right sibling, merging, the root losing a
+   level): for removals the invariant proof is NOT done; they are covered by that correspondence and by the proved checker
+   applied to the raw tree (C04_checker_sound_order, C04_checker_sound_depth) only. *)
+Module Mut.
+Import PDB.Model.BTreeMut PDB.Proofs.BTreeMutProofs.
+Theorem C04_set_keeps_tree :
+  forall st k, tree_ok st -> tree_ok (bt_insert st k) /\ elements (bt_insert st k) = spec_ins k (elements st).
+Proof. exact bt_insert_spec. Qed.
+Theorem C04_sets_keep_tree :
+  forall ks, tree_ok (fold_left bt_insert ks binit) /\
+             elements (fold_left bt_insert ks binit) = fold_left (fun l k => spec_ins k l) ks [].
+Proof. intros ks. destruct binit_ok as [H0 E0]. destruct (inserts_keep_tree ks binit H0) as [H1 H2]. split; [exact H1|rewrite H2, E0; reflexivity]. Qed.
+(* spec_ins on a sorted list is "the key is in, everything else stays, nothing else comes" *)
+Theorem C04_spec_ins_is_set_insertion :
+  forall k l x, sorted l -> (In x (spec_ins k l) <-> x = k \/ In x l).
+Proof. exact spec_ins_in. Qed.
+
+(* non-vacuity: 30 keys in ascending order give a tree of depth 1 whose root has split several times; then the
+   smallest keys are removed until nodes borrow and merge; the traversal is the sorted key set throughout *)
+Example C04_mutation_history :
+  let st1 := fold_left bstep (map (fun i => BSet (N.of_nat i)) (seq 1 30)) binit in
+  let st2 := fold_left bstep (map (fun i => BDel (N.of_nat i)) (seq 1 20)) st1 in
+  fst st1 = 1%nat /\ elements st1 = map N.of_nat (seq 1 30) /\ length (keys_of (snd st1)) = 5%nat /\
+  elements st2 = map N.of_nat (seq 21 10) /\ length (keys_of (snd st2)) = 1%nat.
+Proof. vm_compute. repeat split; reflexivity. Qed.
+End Mut.
+
 Print Assumptions C04_tree_iteration_is_spec.
 Print Assumptions C04_step_is_spec.
 Print Assumptions C04_checker_sound_order.
@@ -101,3 +134,6 @@ Print Assumptions C04_checker_sound_depth.
 Print Assumptions C04_merged_step_is_next.
 Print Assumptions C04_merged_iteration_is_spec.
 Print Assumptions C04_prescription_is_unambiguous.
+Print Assumptions Mut.C04_set_keeps_tree.
+Print Assumptions Mut.C04_sets_keep_tree.
+Print Assumptions Mut.C04_spec_ins_is_set_insertion.
